@@ -18,6 +18,9 @@ statement.  Any raw operator that is new, gone or changed in a modelled function
 "unparsed" (=> `./check C20` prints VIOLATION ... no-failing-input-found naming the site): the
 model no longer provably covers the arithmetic of that function.
 
+Every entry also carries "guards": the guard multiset of the function as extracted by arith_scope.py
+(conditions with comparisons, early exits with their condition, `?`, clamp / checked / validation calls).
+
 A table entry may carry "body": the whole normalised body text is then tied as well (used for small
 functions whose guard is a comparison or a cast rather than a raw operator, e.g. op_sds).
 
@@ -235,6 +238,35 @@ def inventory(repo, wanted):
     return inv, problems
 
 
+def kernel_guards(repo, entries):
+    """guard multisets (arith_scope.py's extraction) of the kernel functions: the Lean kernels transcribe the
+    guards of their functions, so a removed / weakened guard must break the kernel tie as well"""
+    sys.path.insert(0, HERE)
+    import arith_scope as A
+    scans = {}
+    out = {}
+    for e in entries:
+        f = e["file"]
+        if f not in scans:
+            try:
+                scans[f] = A.FileScan(f, open(os.path.join(repo, f), encoding="utf-8").read())
+            except Exception as ex:  # fail closed: reported by the caller as a mismatch
+                scans[f] = None
+        sc = scans[f]
+        key = f"{e['file']} :: {e.get('qual', '')} :: {e['fn']}"
+        if sc is None:
+            out[key] = None
+            continue
+        words = [w for w in re.findall(r"[A-Za-z_][A-Za-z0-9_]*", e.get("qual", "")) if w not in ("impl", "a", "macro_rules", "for", "mod")]
+        cnt = {}
+        for path, gs in sc.guards.items():
+            if (path == "fn " + e["fn"] or path.endswith("::fn " + e["fn"])) and all(w in path for w in words):
+                for g in gs:
+                    cnt[g] = cnt.get(g, 0) + 1
+        out[key] = sorted([list(g) + [c] for g, c in cnt.items()])
+    return out
+
+
 def main():
     ap = argparse.ArgumentParser()
     ap.add_argument("--repo", default="/repo")
@@ -245,6 +277,7 @@ def main():
     table = json.load(open(TABLE)) if os.path.exists(TABLE) else {"functions": []}
     wanted = [(e["file"], e.get("qual", ""), e["fn"]) for e in table["functions"]]
     inv, problems = inventory(a.repo, wanted)
+    kg = kernel_guards(a.repo, table["functions"])
     if a.init:
         out = {"functions": []}
         for e in table["functions"]:
@@ -254,6 +287,7 @@ def main():
             e2 = {"file": e["file"], "qual": e.get("qual", ""), "fn": e["fn"], "kernel": e.get("kernel", ""),
                   "signature": cur["signature"],
                   "sites": [s + [old.get((s[0], s[1], s[2]), "")] for s in cur["sites"]]}
+            e2["guards"] = kg.get(key) or []
             if "body" in e:
                 # whole-body tie (functions whose guards are comparisons / casts, not raw operators)
                 e2["body"] = cur.get("body", "")
@@ -270,6 +304,12 @@ def main():
         cur = inv[key]
         if cur["signature"] != e.get("signature", ""):
             unparsed.append(f"{key}: signature changed: `{cur['signature']}` (table: `{e.get('signature', '')}`)")
+        if "guards" in e and kg.get(key) != e["guards"]:
+            o = {tuple(g[:2]): g[2] for g in e["guards"]}
+            c = {tuple(g[:2]): g[2] for g in (kg.get(key) or [])}
+            gone = [f"{k[0]} `{k[1]}`" for k in sorted(o) if o[k] > c.get(k, 0)]
+            new = [f"{k[0]} `{k[1]}`" for k in sorted(c) if c[k] > o.get(k, 0)]
+            unparsed.append(f"{key}: guards of a transcribed function changed (the Lean kernel mirrors them); GONE: {' | '.join(gone) or '-'} ; NEW: {' | '.join(new) or '-'}")
         if "body" in e and cur.get("body") != e["body"]:
             unparsed.append(f"{key}: body of a function tied as a whole changed: `{cur.get('body')}` (table: `{e['body']}`)")
         want = [(s[0], s[1], s[2]) for s in e.get("sites", [])]
@@ -287,6 +327,8 @@ def main():
             unparsed.append(f"{key}: a statement occurs a different number of times than in the table")
         if sorted(want) == sorted(have):
             obligations += len(have)
+            if "guards" in e and kg.get(key) == e["guards"]:
+                obligations += sum(g[2] for g in e["guards"])
             if len(samples) < 6 and have:
                 samples.append({"fn": key, "kernel": e.get("kernel", ""), "stmt": e["sites"][0][0],
                                 "ops": e["sites"][0][1], "model": e["sites"][0][3]})
